@@ -345,8 +345,17 @@ func (a *App) handleDefault(spokfile *file.SpokFile, runner shell.Runner) error 
 // clean is the default implementation of --clean if the user has
 // not defined a clean task in the spokfile itself.
 func (a *App) clean(spokfile *file.SpokFile) error {
+	// Outputs declared as glob patterns mean the files matching them
+	if err := spokfile.ExpandGlobs(); err != nil {
+		return err
+	}
+
 	var toRemove []string
 	for _, task := range spokfile.Tasks {
+		for _, pattern := range task.GlobOutputs {
+			toRemove = append(toRemove, spokfile.Globs[pattern]...)
+		}
+
 		// Gather up all the declared file outputs
 		for _, fileOutput := range task.FileOutputs {
 			resolved, err := filepath.Abs(fileOutput)
